@@ -538,7 +538,7 @@ func classOf(s string) string {
 // wrap-around with many in-flight entries and every ack order.
 func capacity(c *core.Ctx) {
 	n := 0
-	orders := []string{"fifo", "lifo", "rot3", "rot7", "evens-first"}
+	orders := []string{"fifo", "lifo", "rot3", "rot7", "evens-first", "~fifo", "~lifo", "~rot3", "~evens-first"}
 	for headOff := 0; headOff < 16; headOff++ {
 		for inflight := 0; inflight <= 40; inflight++ {
 			for _, order := range orders {
@@ -567,12 +567,39 @@ func capacity(c *core.Ctx) {
 }
 
 func capacityCase(headOff, inflight int, order string) (string, int) {
+	// "~": the head is moved without the queue ever becoming empty (one request stays in
+	// flight all the time and is the oldest of the in-flight set afterwards)
+	rolling := strings.HasPrefix(order, "~")
+	order = strings.TrimPrefix(order, "~")
 	in := newInstance(4) // grows 4 -> 8 -> 16 -> 32 -> 64
 	steps := 0
 	id := uint16(100)
 	do := func(o op) string {
 		steps++
 		return in.apply(o)
+	}
+	var ids []uint16
+	if rolling && headOff > 0 && inflight > 0 {
+		id++
+		carry := id
+		if v := do(op{kind: opWait, mtype: refcodec.PUBLISH, qos: 1, id: carry}); v != "" {
+			return v, steps
+		}
+		for i := 0; i < headOff; i++ {
+			id++
+			if v := do(op{kind: opWait, mtype: refcodec.PUBLISH, qos: 1, id: id}); v != "" {
+				return v, steps
+			}
+			if v := do(op{kind: opAck, mtype: refcodec.PUBACK, id: carry}); v != "" {
+				return v, steps
+			}
+			if v := do(op{kind: opAcked}); v != "" {
+				return v, steps
+			}
+			carry = id
+		}
+		ids = append(ids, carry) // QoS 1, index 0: acknowledged by PUBACK below
+		headOff = 0
 	}
 	// move head/tail: register and complete headOff entries one by one
 	for i := 0; i < headOff; i++ {
@@ -587,8 +614,7 @@ func capacityCase(headOff, inflight int, order string) (string, int) {
 			return v, steps
 		}
 	}
-	var ids []uint16
-	for i := 0; i < inflight; i++ {
+	for i := len(ids); i < inflight; i++ {
 		id++
 		ids = append(ids, id)
 		q := byte(1 + i%2)
